@@ -548,7 +548,7 @@ func init() {
 		Plan: func(tier string, seed int64) []fw.Batch {
 			n := 20
 			if tier == "thorough" {
-				n = 300
+				n = 1000
 			}
 			bs := batches("trees", 16, n, 3000)
 			bs = append(bs, batches("concurrent-limit", 2, n*2000, 3000)...)
